@@ -20,7 +20,8 @@ RULE = ("Directories are drawn by Hypothesis (plain, with link files / .cap / ab
         "second actor: for prefixes 0, 1, size/2, size-1, before each of the reader's file-system calls that touch the "
         "cache file another request removes or completes the file (every call index x both actions); rewrite race: "
         "with an expired complete cache in place and a same-length rename in the directory, every state of the file "
-        "observed while the writer rewrites it is replayed as a reader request. "
+        "observed while the writer rewrites it is replayed as a reader request; killed writer: the cache-writing request runs "
+        "in a forked child that dies inside the serialisation after 0 / 1 / size/2 / size-1 bytes, then the directory is listed. "
         "Non-trivial: prefix strictly between 0 and size; distinct = (directory hash, file, prefix length).")
 ASSUMPTIONS = [
     "a killed writer, a full disk and a reader racing a writer all leave a prefix of the bytes the writer would have "
@@ -178,6 +179,8 @@ def check_case(case, ctx):
             fails += _second_actor(cfg, root, ref, forms, ctx, d)
         if k == 2:
             fails += _rewrite_race(cfg, ref_cfg, root, forms, ctx, d)
+        if k == 3:
+            fails += _killed_writer(cfg, root, ref, forms, ctx, d)
         ctx.label("deco:" + d["deco"], "cachefiles:%d" % len(caches))
         if k == 0:
             ctx.sample({"dir": d, "cache_files": caches}, cls=d["deco"])
@@ -275,6 +278,62 @@ def _second_actor(cfg, root, ref, forms, ctx, d):
             setattr(hbase.VFS_Real, m, saved[m])
         with open(path, "wb") as f:
             f.write(orig)
+    return fails
+
+
+def _killed_writer(cfg, root, ref, forms, ctx, d):
+    """A writer that is really killed: the cache-writing request runs in a forked child that dies (os._exit) inside the
+    serialisation, after `cut` bytes have gone to whatever file the writer writes to.  Whatever the dead writer leaves in
+    the directory, the next request must show the directory as it is (compared with the listing taken before)."""
+    import pickle
+    import pygopherd.handlers.dir as hdir
+    path = os.path.join(root, ".cache.pygopherd.dir")
+    with open(path, "rb") as f:
+        size = len(f.read())
+    pristine = set(os.listdir(root))
+    fails = []
+    for i, cut in enumerate(sorted({0, 1, size // 2, max(0, size - 1)})):
+        try:
+            os.unlink(path)
+        except OSError:
+            pass
+        pid = os.fork()
+        if pid == 0:
+            try:
+                class _DyingPickle:
+                    def __getattr__(self, n):
+                        return getattr(pickle, n)
+
+                    @staticmethod
+                    def dump(obj, fp, *a, **kw):
+                        data = pickle.dumps(obj, *a, **kw)
+                        fp.write(data[:cut])
+                        fp.flush()
+                        os._exit(0)
+                hdir.pickle = _DyingPickle()
+                _listing(cfg, "gopher")
+            finally:
+                os._exit(0)
+        os.waitpid(pid, 0)
+        left = sorted(set(os.listdir(root)) - pristine)
+        form = forms[i % len(forms)]
+        r = _listing(cfg, form)
+        ctx.count("killed_writer_points")
+        ctx.evaluations += 1
+        ctx.nontriv((d, "killed-writer", cut))
+        if _mask(r.response) != ref[(b"/", form)] or r.escaped is not None:
+            what = (r.handled_signatures() or ["wrong-listing"])[-1] if not r.escaped else drive.exc_signature(r.escaped)
+            fails.append(Fail("killed-writer:%s" % what,
+                              "the cache writer was killed after %d of %d bytes (it left %r in the directory): the next %s listing "
+                              "is not the directory's listing: %r" % (cut, size, left, form, r.response[:120]), {"logs": r.logs[-2:]}))
+        for n in set(os.listdir(root)) - pristine:
+            try:
+                os.unlink(os.path.join(root, n))
+            except OSError:
+                pass
+        if fails:
+            break
+    _listing(cfg, "gopher")  # leave a complete cache file behind
     return fails
 
 
